@@ -8,6 +8,15 @@ CLASSES = ["CountMinLinear", "CountMinLog16", "CountMinLog8", "HyperLogLog", "He
 def run(chk):
     for q in NGRAM:
         chk.kernel(q, replayer=lambda c, bad, tir, contract: _oracle.c12_equiv(c, 40))
+    # the add kernels themselves against the exact contracts the multiplicity lemmas are stated over
+    # (the closed forms are lemmas over contract clauses: the kernels must satisfy those clauses)
+    from . import _cm, _hh, C05
+
+    chk.kernel("countmin._add_linear", replayer=_cm.make_replayer("countmin._add_linear"))
+    _hh.kernels(chk, ["heavyhitters._add"])
+    for q in ("countmin._rand", "countmin._log_counter", "countmin._add_log16", "countmin._add_log8"):
+        chk.kernel(q, replayer=C05.log_replayer(q))
+    chk.kernel("hyperloglog._add")
     _glue.glue_part(chk, CLASSES, {"add", "add_ngram", "getitem", "query", "update", "update_ngram"}, lambda: _oracle.c12_equiv(chk, 60))
     # multiplicity: add(key, v) == v single adds, by a closed form proved inductive (linear, heavy hitters)
     import z3
